@@ -22,7 +22,12 @@ REPO = os.environ.get("AJ_REPO", "/repo")
 SRC = os.path.join(REPO, "src")
 SRCAJ = os.path.join(SRC, "ArduinoJson") + "/"
 AJX = os.path.join(VERIF, "tools", "ajx", "ajx")
-CACHE = os.path.join(VERIF, ".cache")
+# scratch runs (AJ_REPO points at a mutated copy) keep their cache next to
+# the scratch copy so that it disappears with it
+if os.environ.get("AJ_REPO") and os.path.abspath(os.environ["AJ_REPO"]) != "/repo":
+    CACHE = os.path.join(os.path.dirname(os.path.abspath(os.environ["AJ_REPO"])), ".ajcache")
+else:
+    CACHE = os.path.join(VERIF, ".cache")
 
 ARDUINO_FLAGS = [
     "-I" + os.path.join(REPO, "extras/tests/Helpers"),
@@ -258,7 +263,7 @@ def _gc_cache(keep):
         if p in keep or not f.startswith(("prog-", "unit-", "fx-")):
             continue
         try:
-            if now - os.path.getmtime(p) > 6 * 3600:
+            if now - os.path.getmtime(p) > 1800:
                 os.unlink(p)
         except OSError:
             pass
